@@ -1,2 +1,13 @@
 #!/bin/sh
-exit 0
+# Builds the framework from files on disk only (offline) and warms the Go
+# build cache with one scratch build of /repo.
+set -e
+V="$(cd "$(dirname "$0")" && pwd)"
+export GOFLAGS=-mod=mod GOPROXY=off GOSUMDB=off GOTOOLCHAIN=local GOWORK=off
+GO="${VERIF_GO:-/usr/local/bin/go1.26.8}"
+[ -x "$GO" ] || GO=/opt/veriftools/go1.26.8/bin/go
+mkdir -p "$V/bin" "$V/evidence" "$V/replays"
+cd "$V"
+"$GO" build -o bin/check ./cmd/check
+"$GO" build -o bin/simrewrite ./cmd/simrewrite
+VERIF_WARM=1 ./bin/check warm || true
